@@ -1,7 +1,7 @@
 (* LINK (model-mirroring part): the exact acceptance condition of the Monero address decoder on the decoded bytes,
    and the exclusion of the fuel artefact from its error classes.  These two statements unfold the body of
-   Model/AddrXmr.v [decode_addr]; they are kept out of Props/C16.v while that model is being revised (integrated
-   address length check) and must be re-proved against the revised body.  Nothing in Props depends on this file. *)
+   Model/AddrXmr.v [decode_addr] as revised after the repair of finding C10-XMR-INTEG-LEN (without an expected payment id
+   the plain length; with one: its length, the with-id length of the payload, and the id itself). *)
 From Coq Require Import NArith Arith List Lia Bool.
 From BU Require Import Base.Exn Base.Radix Base.Bytes Gen.Consts Gen.ConstsCardmon.
 From BU Require Model.EdLib Model.AddrXmr.
@@ -26,9 +26,11 @@ Section Addr.
     let body := skipn (length net) payload in
     take_last xmr_addr_cklen dec = checksum payload /\
     net = firstn (length net) payload /\
-    (length body = (2 * ed_pub_len)%nat \/
-     (length body = (2 * ed_pub_len + xmr_payid_len)%nat /\
-      exists p, payid = Some p /\ length p = xmr_payid_len /\ p = take_last xmr_payid_len body)) /\
+    match payid with
+    | None => length body = (2 * ed_pub_len)%nat
+    | Some p => length p = xmr_payid_len /\ length body = (2 * ed_pub_len + xmr_payid_len)%nat /\
+                p = take_last xmr_payid_len body
+    end /\
     EdLib.pub_is_valid G pdec (firstn ed_pub_len body) = true /\
     EdLib.pub_is_valid G pdec (slice ed_pub_len (2 * ed_pub_len) body) = true /\
     r = firstn ed_pub_len body ++ slice ed_pub_len (2 * ed_pub_len) body.
@@ -44,8 +46,16 @@ Section Addr.
     destruct (list_eqb net (firstn (length net) payload)) eqn:E2.
     2:{ split; [discriminate|]. intros (_ & H & _). apply list_eqb_spec in H. congruence. }
     apply list_eqb_spec in E2.
-    destruct (length body =? 2 * ed_pub_len)%nat eqn:E3.
-    - apply Nat.eqb_eq in E3. cbn [bind Ok].
+    destruct payid as [p|].
+    - destruct (length p =? xmr_payid_len)%nat eqn:E5.
+      2:{ apply Nat.eqb_neq in E5. split; [discriminate|]. intros (_ & _ & (L & _) & _). contradiction. }
+      apply Nat.eqb_eq in E5.
+      destruct (length body =? 2 * ed_pub_len + xmr_payid_len)%nat eqn:E4.
+      2:{ apply Nat.eqb_neq in E4. split; [discriminate|]. intros (_ & _ & (_ & L & _) & _). contradiction. }
+      apply Nat.eqb_eq in E4.
+      destruct (list_eqb p (take_last xmr_payid_len body)) eqn:E6.
+      2:{ cbn [bind]. split; [discriminate|]. intros (_ & _ & (_ & _ & X) & _). apply list_eqb_spec in X. congruence. }
+      apply list_eqb_spec in E6. cbn [bind Ok].
       destruct (EdLib.pub_is_valid G pdec (firstn ed_pub_len body)) eqn:V1.
       2:{ split; [discriminate|]. intros (_ & _ & _ & H & _). discriminate. }
       destruct (EdLib.pub_is_valid G pdec (slice ed_pub_len (2 * ed_pub_len) body)) eqn:V2.
@@ -53,27 +63,15 @@ Section Addr.
       split.
       + intros H. inversion H. repeat split; auto.
       + intros (_ & _ & _ & _ & _ & ->). reflexivity.
-    - apply Nat.eqb_neq in E3.
-      destruct (length body =? 2 * ed_pub_len + xmr_payid_len)%nat eqn:E4.
-      2:{ apply Nat.eqb_neq in E4. cbn [bind]. split; [discriminate|]. intros (_ & _ & [H|(H & _)] & _); contradiction. }
-      apply Nat.eqb_eq in E4.
-      destruct payid as [p|].
-      2:{ cbn [bind]. split; [discriminate|]. intros (_ & _ & [H|(_ & p & H & _)] & _); [contradiction|discriminate]. }
-      destruct (length p =? xmr_payid_len)%nat eqn:E5.
-      2:{ apply Nat.eqb_neq in E5. cbn [bind]. split; [discriminate|].
-          intros (_ & _ & [H|(_ & p' & H & L & _)] & _); [contradiction|]. inversion H; subst. contradiction. }
-      apply Nat.eqb_eq in E5.
-      destruct (list_eqb p (take_last xmr_payid_len body)) eqn:E6.
-      2:{ cbn [bind]. split; [discriminate|].
-          intros (_ & _ & [H|(_ & p' & H & _ & H')] & _); [contradiction|]. assert (X : p = take_last xmr_payid_len body) by congruence.
-          apply list_eqb_spec in X. congruence. }
-      apply list_eqb_spec in E6. cbn [bind Ok].
+    - destruct (length body =? 2 * ed_pub_len)%nat eqn:E3.
+      2:{ apply Nat.eqb_neq in E3. cbn [bind]. split; [discriminate|]. intros (_ & _ & L & _). contradiction. }
+      apply Nat.eqb_eq in E3. cbn [bind Ok].
       destruct (EdLib.pub_is_valid G pdec (firstn ed_pub_len body)) eqn:V1.
       2:{ split; [discriminate|]. intros (_ & _ & _ & H & _). discriminate. }
       destruct (EdLib.pub_is_valid G pdec (slice ed_pub_len (2 * ed_pub_len) body)) eqn:V2.
       2:{ split; [discriminate|]. intros (_ & _ & _ & _ & H & _). discriminate. }
       split.
-      + intros H. inversion H. repeat split; auto. right. split; [exact E4|]. exists p. auto.
+      + intros H. inversion H. repeat split; auto.
       + intros (_ & _ & _ & _ & _ & ->). reflexivity.
   Qed.
 
